@@ -141,7 +141,7 @@ func boxedStringers(p *Prog, v ssa.Value, depth int) []*ssa.Function {
 	switch x := v.(type) {
 	case *ssa.MakeInterface:
 		t := x.X.Type()
-		for _, name := range []string{"String", "Error", "Format", "GoString"} {
+		for _, name := range []string{"String", "Error", "Format", "GoString", "MarshalZerologObject", "MarshalZerologArray"} {
 			ms := p.SSA.MethodSets.MethodSet(t)
 			if sel := ms.Lookup(nil, name); sel != nil {
 				if f := p.SSA.MethodValue(sel); f != nil && isLibFn(f) {
